@@ -76,6 +76,11 @@ impl JoinedTableData {
     }
 
     pub fn add_row(&mut self, join_on_value: Value, row: Row) {
+        // NULL is not equal to anything, so such a row can never be joined
+        if join_on_value.is_null() {
+            return;
+        }
+
         self.rows
             .entry(join_on_value)
             .or_insert_with(|| Vec::new())
@@ -89,6 +94,10 @@ impl JoinedTableData {
         let joiner_on_column_index = joiner_table.index_for(joiner_column)
             .ok_or_else(|| ExecutionError::ColumnNotFound(joiner_column.to_owned()))?;
         let joiner_on_value = &joined_row.columns[joiner_on_column_index];
+        if joiner_on_value.is_null() {
+            return Ok(None);
+        }
+
         Ok(self.rows.get(joiner_on_value))
     }
 }
